@@ -6,5 +6,6 @@ import NflowsModel.Properties.C16L
 import NflowsModel.Properties.C16O
 import NflowsModel.Properties.C16F
 import NflowsModel.Properties.C16S
+import NflowsModel.Properties.C16R
 
 #audit_namespace Properties.C16
